@@ -387,6 +387,209 @@ def extract_cli_defaults():
     return out
 
 
+# ----------------------------------------------------------------------------- byte classes
+
+# Rust std `u8::is_ascii_*` predicates as byte sets (std semantics; part of the trusted translator)
+STD_PREDS = {
+    "is_ascii_whitespace": {0x20, 0x09, 0x0A, 0x0C, 0x0D},
+    "is_ascii_control": set(range(0, 32)) | {127},
+    "is_ascii_digit": set(range(48, 58)),
+    "is_ascii_alphabetic": set(range(65, 91)) | set(range(97, 123)),
+    "is_ascii_alphanumeric": set(range(48, 58)) | set(range(65, 91)) | set(range(97, 123)),
+    "is_ascii_uppercase": set(range(65, 91)),
+    "is_ascii_lowercase": set(range(97, 123)),
+    "is_ascii_hexdigit": set(range(48, 58)) | set(range(65, 71)) | set(range(97, 103)),
+    "is_ascii_punctuation": set(range(33, 48)) | set(range(58, 65)) | set(range(91, 97)) | set(range(123, 127)),
+    "is_ascii_graphic": set(range(33, 127)),
+    "is_ascii": set(range(0, 128)),
+}
+
+
+def fn_body(toks, name, what, start=0):
+    """token span (open brace index, close brace index) of `fn name`"""
+    i = find_seq(toks, ["fn", name], start)
+    if i < 0:
+        raise ExtractError(f"{what}: fn {name} not found")
+    j = i
+    while toks[j][1] != "{" or toks[j][0] != "sym":
+        j += 1
+    return j, matching_paren(toks, j)
+
+
+def byte_pattern(toks, k, end, what):
+    """parse `b'a' | b'0'..=b'9' | ...` starting at k -> (set of bytes, index after)"""
+    out = set()
+    while True:
+        if toks[k][0] != "chr":
+            raise ExtractError(f"{what}: byte literal expected in pattern, found {toks[k][1]!r}")
+        lo = ord(toks[k][1])
+        k += 1
+        if toks[k][1] == "." and toks[k + 1][1] == "." and toks[k + 2][1] == "=":
+            if toks[k + 3][0] != "chr":
+                raise ExtractError(f"{what}: range end expected")
+            hi = ord(toks[k + 3][1])
+            out |= set(range(lo, hi + 1))
+            k += 4
+        elif toks[k][1] == "." and toks[k + 1][1] == ".":
+            if toks[k + 2][0] != "chr":
+                raise ExtractError(f"{what}: range end expected")
+            out |= set(range(lo, ord(toks[k + 2][1])))
+            k += 3
+        else:
+            out.add(lo)
+        if toks[k][1] == "|" and k < end:
+            k += 1
+            continue
+        return out, k
+
+
+def some_arm(toks, k, end, what):
+    """toks[k] == 'Some', toks[k+1] == '(' : the byte set the arm matches (pattern or guard) and
+    the index of the `=>`; `None` for a catch-all binding without guard."""
+    close = matching_paren(toks, k + 1)
+    if toks[k + 2][0] == "chr":
+        bs, kk = byte_pattern(toks, k + 2, close, what)
+        if kk != close:
+            raise ExtractError(f"{what}: unsupported pattern")
+        arrow = close + 1
+        if toks[arrow][1] == "if":
+            raise ExtractError(f"{what}: guard on a literal pattern is not supported")
+        return bs, arrow
+    if toks[k + 2][0] == "id" and close == k + 3:
+        var = toks[k + 2][1]
+        arrow = close + 1
+        if toks[arrow][1] != "if":
+            return None, arrow
+        # guard: disjunction of var.pred() / var == b'x' / matches!(var, pat)
+        j = arrow + 1
+        e = j
+        while not (toks[e][1] == "=" and toks[e + 1][1] == ">"):
+            e += 1
+        return condition_bytes(toks, j, e, var, what), e
+    raise ExtractError(f"{what}: unsupported Some(..) arm")
+
+
+def condition_bytes(toks, j, e, var, what):
+    """`var.is_ascii_x() || var == b'c' || ...` between j and e -> byte set"""
+    out = set()
+    while j < e:
+        if toks[j][1] == "|":
+            j += 1
+            continue
+        if toks[j][1] == var and toks[j + 1][1] == "." and toks[j + 3][1] == "(" and toks[j + 4][1] == ")":
+            pred = toks[j + 2][1]
+            if pred not in STD_PREDS:
+                raise ExtractError(f"{what}: unknown byte predicate {pred}")
+            out |= STD_PREDS[pred]
+            j += 5
+        elif toks[j][1] == var and toks[j + 1][1] == "=" and toks[j + 2][1] == "=" and toks[j + 3][0] == "chr":
+            out.add(ord(toks[j + 3][1]))
+            j += 4
+        elif toks[j][1] == "matches" and toks[j + 1][1] == "!" and toks[j + 3][1] == var and toks[j + 4][1] == ",":
+            close = matching_paren(toks, j + 2)
+            bs, kk = byte_pattern(toks, j + 5, close, what)
+            if kk != close:
+                raise ExtractError(f"{what}: unsupported matches! pattern")
+            out |= bs
+            j = close + 1
+        else:
+            raise ExtractError(f"{what}: unsupported condition near {' '.join(t for _, t in toks[j:j + 6])!r}")
+    return out
+
+
+def extract_byte_classes():
+    out = {}
+    # Reader::eat_whitespace: the arm that calls next()
+    toks = tokenize(open(os.path.join(REPO, "src", "reader.rs")).read())
+    b, e = fn_body(toks, "eat_whitespace", "reader.rs")
+    k = find_seq(toks, ["Some", "("], b)
+    if k < 0 or k > e:
+        raise ExtractError("reader.rs: eat_whitespace has no Some(..) arm")
+    bs, arrow = some_arm(toks, k, e, "reader.rs eat_whitespace")
+    if bs is None:
+        raise ExtractError("reader.rs: eat_whitespace arm matches every byte")
+    body_close = matching_paren(toks, arrow + 2) if toks[arrow + 2][1] == "{" else arrow + 8
+    if find_seq(toks[arrow:body_close + 1], ["self", ".", "next", "("]) < 0:
+        raise ExtractError("reader.rs: eat_whitespace arm does not consume the byte")
+    out["whitespace"] = bs
+    # variables_extractor: the stop arm of the name loop
+    toks = tokenize(open(os.path.join(REPO, "src", "variables_extractor.rs")).read())
+    k = find_seq(toks, ["None", "|", "Some", "("])
+    if k < 0:
+        raise ExtractError("variables_extractor.rs: `None | Some(..)` stop arm not found")
+    bs, arrow = some_arm(toks, k + 2, len(toks), "variables_extractor.rs name loop")
+    if bs is None:
+        raise ExtractError("variables_extractor.rs: stop arm matches every byte")
+    out["var_stop"] = bs
+    # selection::read_function_name and extractor::read_extract_key: `if <cond> { break; }`
+    for key, file, fn in (("fn_name_stop", "selection.rs", "read_function_name"),
+                          ("key_stop", "extractor.rs", "read_extract_key")):
+        toks = tokenize(open(os.path.join(REPO, "src", file)).read())
+        b, e = fn_body(toks, fn, file)
+        k = find_seq(toks, ["Some", "("], b)
+        if k < 0 or k > e or toks[k + 2][0] != "id":
+            raise ExtractError(f"{file}: {fn}: Some(ch) arm not found")
+        var = toks[k + 2][1]
+        i = find_seq(toks, ["if"], k)
+        if i < 0 or i > e:
+            raise ExtractError(f"{file}: {fn}: stop condition not found")
+        j = i + 1
+        c = j
+        while not (toks[c][0] == "sym" and toks[c][1] == "{"):
+            c += 1
+        if [t for _, t in toks[c + 1:c + 3]] != ["break", ";"]:
+            raise ExtractError(f"{file}: {fn}: the condition does not guard a break")
+        out[key] = condition_bytes(toks, j, c, var, f"{file} {fn}")
+    # json_parser::next_json_value: the dispatch arms
+    toks = tokenize(open(os.path.join(REPO, "src", "json_parser.rs")).read())
+    b, e = fn_body(toks, "next_json_value", "json_parser.rs", find_seq(toks, ["impl", "<", "R", ":", "Read", ">", "JsonParser"]))
+    arms = []
+    k = b
+    while True:
+        k = find_seq(toks, ["Some", "("], k + 1)
+        if k < 0 or k > e:
+            break
+        if toks[k - 1][1] == "(" and toks[k - 2][1] == "Ok":
+            continue  # the Ok(Some(..)) of a result
+        bs, arrow = some_arm(toks, k, e, "json_parser.rs next_json_value")
+        if bs is None:
+            break  # Some(ch) => error arm: everything else
+        seg = toks[arrow:arrow + 16]
+        readers = [seg[q + 2][1] for q in range(len(seg) - 3)
+                   if seg[q][1] == "self" and seg[q + 1][1] == "." and seg[q + 2][1].startswith("read_")]
+        if len(readers) != 1:
+            raise ExtractError("json_parser.rs: next_json_value arm without a single read_* call")
+        arms.append((bs, readers[0]))
+        k = arrow
+    if len(arms) < 5:
+        raise ExtractError("json_parser.rs: dispatch arms of next_json_value not found")
+    out["value_start"] = arms
+    return out
+
+
+def extract_print_ranges():
+    """JSON print_string: the range printed as is and the threshold of the utf8 option"""
+    toks = tokenize(open(os.path.join(REPO, "src", "output_style.rs")).read())
+    i = find_seq(toks, ["fn", "print_string"], find_seq(toks, ["for", "JsonOutputOptions"]))
+    if i < 0:
+        raise ExtractError("output_style.rs: JSON print_string not found")
+    end = find_seq(toks, ["fn", "print_object"], i)
+    k = find_seq(toks, [".", ".", "="], i)
+    if k < 0 or k > end or toks[k - 1][0] != "chr" or toks[k + 3][0] != "chr" or toks[k - 2][1] != "(" \
+            or [t for _, t in toks[k + 4:k + 7]] != [")", ".", "contains"]:
+        raise ExtractError("output_style.rs: print_string plain range `(' '..='~').contains` not found")
+    lo, hi = ord(toks[k - 1][1]), ord(toks[k + 3][1])
+    u = find_seq(toks, ["utf8_strings", "&", "&"], k)
+    if u < 0 or u > end or toks[u + 4][1] != ">" or toks[u + 5][0] != "chr" or toks[u + 3][0] != "id":
+        raise ExtractError("output_style.rs: print_string `utf8_strings && ch > '~'` not found")
+    above = ord(toks[u + 5][1])
+    # the fallback format
+    fmt = [t for kk, t in toks[u:end] if kk == "str"]
+    if "\\u{:04x}" not in fmt:
+        raise ExtractError("output_style.rs: print_string \\u{:04x} fallback not found")
+    return lo, hi, above
+
+
 # ----------------------------------------------------------------------------- emit Lean
 
 def lean_str(s):
@@ -432,6 +635,8 @@ def main():
         csv, text_default, json_default, print_arms = extract_output_style()
         parse_arms = extract_parser_escapes()
         cli = extract_cli_defaults()
+        bc = extract_byte_classes()
+        plain_lo, plain_hi, utf8_above = extract_print_ranges()
     except ExtractError as e:
         print("EXTRACT-ERROR: " + str(e))
         sys.exit(3)
@@ -510,6 +715,28 @@ def main():
              f"def rowSeparatorDefault : List Nat := {codes(cli['row_separator_default'])}\n",
              "end Jawk.Generated\n"]
     ch3 = write_if_changed(os.path.join(OUT, "Presets.lean"), "\n".join(lines))
+    # ByteClasses
+    def blist(bs):
+        return "[" + ", ".join(str(x) for x in sorted(bs)) + "]"
+    lines = [hdr, "namespace Jawk.Generated\n",
+             "/-- `Reader::eat_whitespace`: the bytes it skips -/",
+             f"def whitespaceBytes : List Nat := {blist(bc['whitespace'])}\n",
+             "/-- `variables_extractor`: the bytes that end a `:name` / `@name` -/",
+             f"def varStopBytes : List Nat := {blist(bc['var_stop'])}\n",
+             "/-- `selection::read_function_name`: the bytes that end a function name -/",
+             f"def fnNameStopBytes : List Nat := {blist(bc['fn_name_stop'])}\n",
+             "/-- `extractor::read_extract_key`: the bytes that end a bare `.key` -/",
+             f"def keyStopBytes : List Nat := {blist(bc['key_stop'])}\n",
+             "/-- `next_json_value`: (bytes of the arm, name of the reader it calls as code points), in source order -/",
+             "def valueStartArms : List (List Nat × List Nat) := [",
+             ",\n".join(f"  ({blist(bs)}, {codes(r)})" for bs, r in bc["value_start"]),
+             "]\n",
+             "/-- JSON `print_string`: characters in this closed range are written as they are -/",
+             f"def printPlainRange : Nat × Nat := ({plain_lo}, {plain_hi})\n",
+             "/-- JSON `print_string`: with `utf8_strings`, characters above this one are written as they are -/",
+             f"def printUtf8Above : Nat := {utf8_above}\n",
+             "end Jawk.Generated\n"]
+    ch5 = write_if_changed(os.path.join(OUT, "ByteClasses.lean"), "\n".join(lines))
     # the same table for the Rust harness (generator of aliases / arities)
     def rust_str(x):
         return '"' + x.replace('\\', '\\\\').replace('"', '\\"') + '"'
@@ -523,7 +750,7 @@ def main():
     ch4 = write_if_changed(os.path.join(OUT, "..", "..", "..", "harness", "src", "gen_table.rs"), "\n".join(rl) + "\n")
     summary = {"functions": len(funcs), "names": len(allnames),
                "examples": sum(len(f["examples"]) for f in funcs), "examples_skipped": skipped,
-               "changed": [n for n, c in (("FunctionTable", ch1), ("DocExamples", ch2), ("Presets", ch3), ("harness/gen_table.rs", ch4)) if c]}
+               "changed": [n for n, c in (("FunctionTable", ch1), ("DocExamples", ch2), ("Presets", ch3), ("harness/gen_table.rs", ch4), ("ByteClasses", ch5)) if c]}
     print("EXTRACT-OK " + json.dumps(summary))
 
 
